@@ -1023,6 +1023,39 @@ pub fn plant_ext_inst(rng: &mut Rng, stream: &mut Stream) {
     stream.header.bound += 10;
 }
 
+/// Hot spot the no-panic property names: an OpSpecConstantOp whose nested opcode is ANY number.  A third of the picks
+/// come from the opcodes whose operand kinds are special (context-dependent literals, literal/id pairs, the spec-op
+/// number itself, extended instructions) and from the edges of the opcode space.
+pub fn plant_spec_constant_op(rng: &mut Rng, stream: &mut Stream) {
+    let s = snap();
+    let special: Vec<u32> = s
+        .insts
+        .iter()
+        .filter(|g| g.operands.iter().any(|(k, _)| matches!(s.cat(*k), Cat::LitCtx | Cat::PairLitId | Cat::PairIdLit | Cat::PairIdId | Cat::LitSpecOp | Cat::LitExtInst | Cat::LitString)))
+        .map(|g| g.opcode as u32)
+        .collect();
+    let max_opcode = s.insts.iter().map(|g| g.opcode as u32).max().unwrap_or(0);
+    let any = match rng.below(6) {
+        0 | 1 => *rng.pick(&special),
+        2 => *rng.pick(&[0u32, max_opcode, max_opcode + 1, 0xFFFF, 0x1_0000, 0x1_0000 + 15, u32::MAX]),
+        _ => s.insts[rng.usize_below(s.insts.len())].opcode as u32,
+    };
+    let mut ops = vec![MOp::W(s.k_specop, any)];
+    for _ in 0..rng.below(5) {
+        ops.push(MOp::W(s.k_idref, rng.below(20) as u32));
+    }
+    let at = rng.usize_below(stream.insts.len() + 1);
+    stream.insts.insert(
+        at,
+        MInst {
+            opcode: s.op("SpecConstantOp"),
+            rtype: Some(rng.range(1, 20) as u32),
+            rid: Some(stream.header.bound.wrapping_add(rng.range(100, 200) as u32)),
+            ops,
+        },
+    );
+}
+
 /// Hot spot for code that re-derives literal widths AFTER parsing (the module disassembler tracks all
 /// global types first): an OpConstant whose type id is declared only later, or re-declared later with
 /// another width / kind.
